@@ -36,6 +36,7 @@ func c03(c *core.Ctx) map[string]interface{} {
 	r3int(c)
 	r3clone(c)
 	r3mask(c)
+	r3pure(c)
 	return map[string]interface{}{"ngap_types": len(s.Types)}
 }
 
@@ -756,4 +757,25 @@ func r3underflow(c *core.Ctx) {
 	if n == 0 {
 		c.SoftUndecided("R3.underflow: no unsigned difference reaching an encoder primitive found (expected the `octets - 1` length field of appendInteger)")
 	}
+}
+
+// r3pure: the encoder keeps no state between calls (a cache of parsed tags, a pooled buffer): the
+// encoding of a value depends on the value alone, also when two values are encoded at once.
+func r3pure(c *core.Ctx) {
+	if !c.Once("r3pure") {
+		return
+	}
+	var entries []*ssa.Function
+	for _, n := range []string{"Marshal", "MarshalWithParams"} {
+		if f := c.P.Func(pAper, n); f != nil {
+			entries = append(entries, f)
+		}
+	}
+	if f := c.P.Func(pNgap, "Encoder"); f != nil {
+		entries = append(entries, f)
+	}
+	if len(entries) < 2 {
+		c.Undecided("R3.pure: the encoder entry points (aper.Marshal*, ngap.Encoder) were not found")
+	}
+	pureState(c, "R3.pure", "the APER encoder (aper.Marshal, aper.MarshalWithParams, ngap.Encoder)", entries, nil)
 }
